@@ -83,17 +83,20 @@ def _c07_eval(M, sp, label, res, base):
         from tucan.canonicalization import canonicalize_molecule
         from tucan.serialization import serialize_molecule
 
-        sp_omit = MF.with_(sp, explicit_zero=None)
-        sp_omit["explicit_zero"] = []
-        sp_omit["splits"] = []  # positions refer to the line with the explicit zeros
-        sp_omit["blanks"] = []
-        g_omit = read(MF.v3000_text(M, sp_omit))
-        s = serialize_molecule(canonicalize_molecule(g))
-        s_omit = serialize_molecule(canonicalize_molecule(g_omit))
-        if s != s_omit:
-            return ("C07|explicit0|tucan", f"{label}: TUCAN {s!r} != {s_omit!r} of the omitting spelling", text)
-        if body_of_written(read(text)) != body_of_written(read(MF.v3000_text(M, sp_omit))):
-            return ("C07|explicit0|written", f"{label}: written molfile differs from the omitting spelling", text)
+        try:
+            sp_omit = MF.with_(sp, explicit_zero=None)
+            sp_omit["explicit_zero"] = []
+            sp_omit["splits"] = []  # positions refer to the line with the explicit zeros
+            sp_omit["blanks"] = []
+            g_omit = read(MF.v3000_text(M, sp_omit))
+            s = serialize_molecule(canonicalize_molecule(g))
+            s_omit = serialize_molecule(canonicalize_molecule(g_omit))
+            if s != s_omit:
+                return ("C07|explicit0|tucan", f"{label}: TUCAN {s!r} != {s_omit!r} of the omitting spelling", text)
+            if body_of_written(read(text)) != body_of_written(read(MF.v3000_text(M, sp_omit))):
+                return ("C07|explicit0|written", f"{label}: written molfile differs from the omitting spelling", text)
+        except Exception as ex:
+            return ("C07|explicit0|exc", f"{label}: comparing with the omitting spelling raised {type(ex).__name__}: {str(ex)[:100]}", text)
     return None
 
 
